@@ -3,5 +3,6 @@ CONSTANTS
   MaxO = 24
   MaxTC = 12
   MaxTL = 8
+  FullTerms = TRUE
 INVARIANT AlgoSatisfiesProperty
 CHECK_DEADLOCK FALSE
